@@ -109,10 +109,11 @@ no key down, stays silent, reports idle, and has no dance, eager state or event 
 theorem tapdance_released_and_idle (k : KState) (h : Quiesce.LayoutAtRest k.layout)
     (h10 : k.scroll = none) (h11 : k.hscroll = none) (h12 : k.moveV = none) (h13 : k.moveH = none)
     (h14 : k.macroOnPressCancelDuration = 0) (h15 : k.capsWord = none) (h16 : k.vkeysPendingRelease = [])
-    (h17 : k.waitingForIdle = []) (h18 : k.liveReloadRequested = false) (h20 : k.seq.st.active = false) :
+    (h17 : k.waitingForIdle = []) (h18 : k.liveReloadRequested = false) (h20 : k.seq.st.active = false)
+    (h21 : k.dyn.rep = none) :
     k.layout.keycodes = [] ∧ C07.QuietLayout k.layout ∧ isIdle k = true ∧ k.layout.tapDanceEager = none ∧
       k.layout.waiting = none ∧ k.layout.queue = [] :=
-  let ⟨a, b, c⟩ := at_rest_released_and_idle k h h10 h11 h12 h13 h14 h15 h16 h17 h18 h20
+  let ⟨a, b, c⟩ := at_rest_released_and_idle k h h10 h11 h12 h13 h14 h15 h16 h17 h18 h20 h21
   ⟨a, b, c, h.tde, h.waiting, h.queue⟩
 
 /-- a kanata state around the layout at rest these theorems end in (here: of the configuration `tdCfg`
